@@ -84,7 +84,7 @@ class SharedBuilder(Builder):
             import ufl
 
             body = self.build(self.var_recipes[k])
-            self.vars[k] = body if k in self.plain else ufl.variable(body)
+            self.vars[k] = body if k in self.plain else self.mk_variable(body, k)
         return self.vars[k]
 
 
